@@ -5,19 +5,19 @@ import json, os, re, subprocess
 ROOT = "/verif"
 sweep = {}
 for line in open(os.path.join(ROOT, ".work/seedsweep.log"), errors="replace"):
-    m = re.match(r"seed (C\d+-[ab]) check (C\d+) rc=(\d+):\s*(.*)", line)
+    m = re.match(r"seed (C\d+-[a-d]) check (C\d+) rc=(\d+):\s*(.*)", line)
     if m:
         sid, chk, rc, rest = m.group(1), m.group(2), int(m.group(3)), m.group(4)
         sigs = re.findall(r"signature=([^:\s]+)", rest)
         sweep[sid] = [x for x in sweep.get(sid, []) if x["check"] != chk]
         sweep.setdefault(sid, []).append(dict(check=chk, command="lib/seedrun.sh %s %s  (= VERIF_REPO_DIR=<scratch worktree with the patch> ./check %s quick)" % (sid, chk, chk),
                                               exit_code=rc, signatures=sigs, note=("inconclusive: " + rest[:200]) if rc == 2 else ""))
-    m = re.match(r"seed (C\d+-[ab]): patch does not apply", line)
+    m = re.match(r"seed (C\d+-[a-d]): patch does not apply", line)
     if m:
         sweep.setdefault(m.group(1), []).append(dict(check="-", command="lib/seedrun.sh", exit_code=8, signatures=[], note="patch does not apply to HEAD"))
 conf = {}
 for line in open(os.path.join(ROOT, ".work/reconfirm.log"), errors="replace"):
-    m = re.match(r"(C\d+-[ab]): demo_unmodified_rc=(\d+) demo_with_change_rc=(\d+) suite_with_change_rc=(\d+)", line)
+    m = re.match(r"(C\d+-[a-d]): demo_unmodified_rc=(\d+) demo_with_change_rc=(\d+) suite_with_change_rc=(\d+)", line)
     if m:
         conf[m.group(1)] = dict(demo_passes_unmodified=m.group(2) == "0", demo_fails_with_change=m.group(3) != "0", suite_passes_with_change=m.group(4) == "0")
 # seeds whose effect my own fix: commits removed (see DESIGN.md 11.6); the sweep result is still recorded
